@@ -333,7 +333,11 @@ def run(ctx):
                 'setting of move_annotations on generated models with annotated variables (look-ups by id, RDF and ontology '
                 'term before and after every conversion; oracle only); injected histories "look at the annotations, move the id '
                 'away, give a new id, remove the variable"; annotations whose subject is a resource of another document (absolute / relative URI with '
-                'a local id as fragment); registry consistency (has_cmeta_id / look-up) after loading; non-trivial = at least 3 '
+                'a local id as fragment); registry consistency (has_cmeta_id / look-up) after loading; one metadata block written at each '
+                'of 11 places of a document (model, component, variable, connection, map_components, group, relationship_ref, '
+                'component_ref, units, unit, beside the maths) with the id on either end of a connection; ids that are not ASCII; '
+                'annotations whose object is a local resource; frame rule (no operation deletes annotations of other variables); '
+                'non-trivial = at least 3 '
                 'id-changing calls')
     ctx.trusted += ['rdflib graph modelled as a set of (subject id, predicate, object) triples',
                     'calls that hand the model dead or foreign variables (F16) are excluded on both sides']
